@@ -48,7 +48,7 @@ theorem inSupp_iff_dependsOn {t : Tbl} (hw : WFU t) (u : Int) (hm : t.Mem u) (i 
   · rintro ⟨v, n, hr, hn, rfl⟩
     exact inSupp_of_reach hw.toWF hr n hn u rfl
 
-theorem OrderOK.vars_nameOf {t : Tbl} (h : OrderOK t) {i : Nat} (hi : i < t.nvars) :
+theorem OrderOK.vars_of_nameOf {t : Tbl} (h : OrderOK t) {i : Nat} (hi : i < t.nvars) :
     t.vars[t.nameOf i]? = some i := by
   obtain ⟨v, hv, hv'⟩ := h.name_at hi
   simp only [Tbl.nameOf, hv, Option.getD_some]; exact hv'
@@ -65,24 +65,24 @@ theorem support_inSupp {t : Tbl} (hw : WFU t) (hO : OrderOK t) (u : Int) (hm : t
   refine ⟨_, hs, ?_, ?_, ?_⟩
   · intro s hs'
     obtain ⟨i, hi, rfl⟩ := List.mem_map.mp hs'
-    exact (vars_contains_iff _ _).mpr ⟨i, hO.vars_nameOf (hlt i hi)⟩
+    exact (vars_contains_iff _ _).mpr ⟨i, hO.vars_of_nameOf (hlt i hi)⟩
   · intro j
     rw [List.map_map]
     constructor
     · intro hj
       obtain ⟨i, hi, hij⟩ := List.mem_map.mp hj
-      have : lvlOf t (t.nameOf i) = i := lvlOf_eq (hO.vars_nameOf (hlt i hi))
+      have : lvlOf t (t.nameOf i) = i := lvlOf_eq (hO.vars_of_nameOf (hlt i hi))
       simp only [Function.comp] at hij
       rw [this] at hij; subst hij
       exact (inSupp_iff_dependsOn hw u hm i).mpr ((hdep i).mp hi)
     · intro hj
       have hi := (hdep j).mpr ((inSupp_iff_dependsOn hw u hm j).mp hj)
-      exact List.mem_map.mpr ⟨j, hi, lvlOf_eq (hO.vars_nameOf (hlt j hi))⟩
+      exact List.mem_map.mpr ⟨j, hi, lvlOf_eq (hO.vars_of_nameOf (hlt j hi))⟩
   · intro s
     constructor
     · intro hs'
       obtain ⟨i, hi, rfl⟩ := List.mem_map.mp hs'
-      exact ⟨i, hO.vars_nameOf (hlt i hi), (hdep i).mp hi⟩
+      exact ⟨i, hO.vars_of_nameOf (hlt i hi), (hdep i).mp hi⟩
     · rintro ⟨j, hj, hd⟩
       have hi := (hdep j).mpr hd
       refine List.mem_map.mpr ⟨j, hi, ?_⟩
